@@ -13,12 +13,18 @@ Rules (DESIGN.md section 6, C09):
  3. in the true branch of `_is_num(x)`, `isinstance(x, (int, float))`, `x is None`, x is Scalar;
  4. kinds: a store into a NumPy array copies data (no containment), a store into a list / dict / object records
     containment; `list + list`, `list * k` build a list holding the operands' elements, array arithmetic is fresh;
- 5. loops over range(1, d), range(d), Y[1:], Y, zip/enumerate of those run at least once (d >= 2);
+ 5. (withdrawn) every loop may run zero times: after a loop a variable is the join of 'loop skipped' and 'loop ran', so
+    one-dimensional tensors (d = 1), q = 1, single samples and empty lists are covered (full() returned a view of Y[0]
+    for d = 1 before 4a59233, which the former 'range(1, d) / Y[1:] run at least once' rule hid);
  6. callbacks do not write their arguments; a callback parameter is an object (closure / bound method) like any other;
     what a callback returns may reference anything reachable from its arguments OR from the callback object itself
     (a sampler that hands out a view of a buffer it keeps: this is what flagged rand_custom before 45c0f32);
- 7. a subscript whose index is a name bound only to np.where(..)[0], a comparison or `&`/`|` of masks is a NumPy advanced
-    index: it yields a copy.
+ 7. a subscript whose index is a name bound only to np.where(..)[0], a comparison or `&`/`|` of masks, or an entry of the
+    form X[..., k] (an ndarray, never a scalar) is a NumPy advanced index: it yields a copy;
+ 8. cores of a parameter documented as TT-tensor are 3-D numeric arrays; a local name EVERY binding of which is a
+    basic-index view of such a core (or a matrix product of such names) has a known number of dimensions, and a
+    subscript fixing every one of them yields a scalar (or, if an entry is an array, an advanced-index copy): no view
+    (needed for get(): Q = Y[0][0, i[0], :]; ...; return Q[0] when the loop over range(1, d) runs zero times).
 An unknown construct becomes CUnknown "<reason>" on which the Coq check computes false.
 """
 import ast
@@ -395,6 +401,13 @@ class Tr:
                     return False
             return None
         if isinstance(t, ast.Compare) and len(t.ops) == 1:
+            # `flag is False` / `flag is True` on a parameter: a caller may pass 0, 1, np.bool_(..), which are equally falsy /
+            # truthy but are not the singletons -> undecided, both branches are analysed
+            if isinstance(t.ops[0], (ast.Is, ast.IsNot)):
+                for x, y in ((t.left, t.comparators[0]), (t.comparators[0], t.left)):
+                    if isinstance(x, ast.Name) and x.id in self.info.allparams and isinstance(y, ast.Constant) \
+                            and isinstance(y.value, bool):
+                        return None
             a, b = self.const_val(t.left), self.const_val(t.comparators[0])
             if a is not NOCONST and b is not NOCONST:
                 op = t.ops[0]
@@ -618,7 +631,110 @@ class Tr:
 
     def is_advanced_index(self, idx):
         parts = idx.elts if isinstance(idx, ast.Tuple) else [idx]
-        return any(isinstance(p, ast.Name) and p.id in self.arridx for p in parts)
+
+        def ell(p):
+            # X[..., k]: NumPy returns an ndarray (0-d at least), never a scalar, for an index with an Ellipsis, so as an
+            # index entry it is an advanced index (rule 7); on a list X it raises TypeError
+            if not isinstance(p, ast.Subscript):
+                return False
+            q = p.slice.elts if isinstance(p.slice, ast.Tuple) else [p.slice]
+            return any(isinstance(x, ast.Constant) and x.value is Ellipsis for x in q)
+        return any((isinstance(p, ast.Name) and p.id in self.arridx) or ell(p) for p in parts)
+
+    # -- rule 8: number of dimensions of views of TT-cores -----------------------------------------------------------
+    def tt_param(self, nm):
+        info = self.info
+        return nm in info.params and self.cur.get(nm) not in (None, SCALAR, FUNC) and info.param_kind(nm) == KLA \
+            and nm not in self.assigned_all
+
+    def scan_nd(self):
+        """name -> number of dimensions, for local names EVERY binding of which is a basic-index view of a core of a
+        TT-tensor parameter (cores are 3-D numeric arrays: the package's data structure) or a matrix product of such;
+        computed under the reading 'every non-slice index entry is an integer' -- where an entry is an array instead, that
+        subscript is an advanced index and yields a copy, so nothing derived from it aliases the argument either"""
+        if self.info.is_lambda:
+            return {}
+        binds = {}
+        for n in ast.walk(ast.Module(body=self.info.node.body, type_ignores=[])):
+            if isinstance(n, ast.Assign) and len(n.targets) == 1 and isinstance(n.targets[0], ast.Name):
+                binds.setdefault(n.targets[0].id, []).append(n.value)
+            elif isinstance(n, ast.For) and isinstance(n.target, ast.Name):
+                binds.setdefault(n.target.id, []).append(('iter', n.iter))
+            else:
+                tg = []
+                if isinstance(n, ast.Assign):
+                    tg = n.targets
+                elif isinstance(n, (ast.AugAssign, ast.AnnAssign, ast.For, ast.comprehension)):
+                    tg = [n.target]
+                elif isinstance(n, ast.withitem) and n.optional_vars is not None:
+                    tg = [n.optional_vars]
+                elif isinstance(n, ast.NamedExpr):
+                    tg = [n.target]
+                for t in tg:
+                    for x in ast.walk(t):
+                        if isinstance(x, ast.Name):
+                            binds.setdefault(x.id, []).append(None)       # a binding we do not understand
+        nd = {}
+
+        def nde(e, guess):
+            if isinstance(e, tuple):       # loop variable over a TT-tensor parameter (or a slice of it)
+                it = e[1]
+                if isinstance(it, ast.Subscript) and isinstance(it.slice, ast.Slice):
+                    it = it.value
+                return 3 if isinstance(it, ast.Name) and self.tt_param(it.id) else None
+            if e is None:
+                return None
+            if isinstance(e, ast.IfExp):
+                if isinstance(e.test, ast.Name) and e.test.id in self.consts and isinstance(self.consts[e.test.id], bool):
+                    return nde(e.body if self.consts[e.test.id] else e.orelse, guess)      # rule 2 folded this branch
+                a, b = nde(e.body, guess), nde(e.orelse, guess)
+                return a if a is not None and a == b else None
+            if isinstance(e, ast.Name):
+                return guess.get(e.id)
+            if isinstance(e, ast.BinOp) and isinstance(e.op, ast.MatMult):
+                return {(1, 2): 1, (2, 2): 2, (2, 1): 1}.get((nde(e.left, guess), nde(e.right, guess)))
+            if isinstance(e, ast.Subscript):
+                if isinstance(e.value, ast.Name) and self.tt_param(e.value.id):
+                    return None if isinstance(e.slice, (ast.Slice, ast.Tuple)) else 3
+                nb = nde(e.value, guess)
+                if nb is None:
+                    return None
+                parts = e.slice.elts if isinstance(e.slice, ast.Tuple) else [e.slice]
+                if any(isinstance(x, ast.Starred) or (isinstance(x, ast.Constant) and (x.value is Ellipsis or x.value is None))
+                       for x in parts):
+                    return None
+                k = sum(1 for x in parts if not isinstance(x, ast.Slice))
+                return nb - k if nb - k >= 0 else None
+            return None
+        cand = {nm: None for nm in binds if nm not in self.info.allparams}
+        for _ in range(4):          # names bound through each other (Q = Q @ ...): iterate from the non-recursive bindings
+            new = {}
+            for nm, vs in binds.items():
+                if nm in self.info.allparams or any(v is None for v in vs):
+                    continue
+                vals = [nde(v, dict(cand, **nd)) for v in vs]
+                known = {v for v in vals if v is not None}
+                if len(known) == 1:
+                    new[nm] = (known.pop(), all(v is not None for v in vals))
+            cand = {nm: v for nm, (v, full) in new.items()}
+            nd = {nm: v for nm, (v, full) in new.items() if full}
+        self._nde = lambda e: nde(e, nd)
+        return nd
+
+    def scalar_by_rule8(self, e):
+        """e = base[idx] where base is a view of a TT-core with known ndim and idx fixes every dimension"""
+        if not hasattr(self, 'ndnames'):
+            self.ndnames = self.scan_nd()
+        if self.info.is_lambda:
+            return False
+        nb = self._nde(e.value)
+        if nb is None:
+            return False
+        parts = e.slice.elts if isinstance(e.slice, ast.Tuple) else [e.slice]
+        if any(isinstance(x, ast.Starred) or (isinstance(x, ast.Constant) and (x.value is Ellipsis or x.value is None))
+               for x in parts):
+            return False
+        return sum(1 for x in parts if not isinstance(x, ast.Slice)) >= nb
 
     def E_Subscript(self, e):
         if self.is_module_path(e.value):      # np.r_[...], np.c_[...]
@@ -628,7 +744,7 @@ class Tr:
         self.E(e.slice)
         if not base:
             return []
-        if self.is_advanced_index(e.slice):
+        if self.is_advanced_index(e.slice) or self.scalar_by_rule8(e):
             return self.define(('copy?', self.newsite(), base))
         return self.subk(base, isinstance(e.slice, ast.Slice))
 
@@ -1347,6 +1463,7 @@ class Tr:
             parts = [p for p in parts if not p.startswith('start=')]
             al1 = all(AT_LEAST_ONCE.match(p) or re.match(r'^range\(1, \w+(\.shape\[-1\])?\)$', p) for p in parts) \
                 and any(AT_LEAST_ONCE.match(p) for p in parts)
+        al1 = False     # rule 5 WITHDRAWN: every loop may run zero times (d = 1, q = 1, a single sample, an empty list)
         has_break = any(isinstance(n, ast.Break) for n in ast.walk(st))
 
         def body():
